@@ -5,7 +5,9 @@ Theorems over `Scope` (Model/Scope.lean; tied to xonsh/parsers/ast.py `CtxAwareT
 xv/props/c02.py).  `Scope.run env p` walks a program once and gives, per statement, what the PROPERTY says (`ok`: every
 name the statement reads is defined — builtin, session name, or bound earlier in the source by Python's lexical rules;
 `tame`: every `del` so far is one Python can execute) and what the CODE decides (`decs`: keep | offer to command
-interpretation | builtin_cmd, one verdict per `is_in_scope` test).  `env.fx = Fixes.none` is the code as it is.
+interpretation | builtin_cmd, one verdict per `is_in_scope` test).  `env.fx = Fixes.all` is the transformer as it is now
+(after the nine fix commits be20ece 3de5a37 f8236d9 722d38f de68657 40ae2dd dd4c90f 067d356 0f3d5e1 to xonsh/parsers/ast.py),
+`Fixes.none` the transformer before them; the harness picks the variant per mechanism by replaying the findings' witnesses.
 -/
 import XonshVerif.Lemmas.ScopeAll
 import XonshVerif.Lemmas.ScopeShape
@@ -20,7 +22,7 @@ theorem C02_python_wins_gen (env : Env) (p : Stmts) (r : Rec) (hr : r ∈ run en
   have h0 : Good env (St.init env) := fun _ _ => Sim.init env
   exact ((runL_post env p (St.init env) h0).recs r hr).1 hok ht hg
 
-/-- C02 for the code as it is: the guards of `g` (all syntactic; see Model/Scope.lean "guards") are
+/-- C02 for the transformer BEFORE the repairs (`Fixes.none`): the guards of `g` (all syntactic; see Model/Scope.lean "guards") are
 no plain dotted import, no walrus outside the reach of generic_visit, no lambda whose parameters are read under an
 `is_in_scope` test, no comprehension variable under a BoolOp/UnaryOp of the element expression, no nested unpacking
 target in `=`, no module-level `del` of a session name that is also a builtin, no `del` of an except-name inside its `try`. -/
@@ -28,7 +30,9 @@ theorem C02_python_wins_partial (B U : List Name) (p : Stmts) (r : Rec) (hr : r 
     (hok : r.ok = true) (ht : r.tame = true) (hg : r.g = true) : ∀ d ∈ r.decs, d.v ≠ Verdict.offer :=
   C02_python_wins_gen ⟨B, U, Fixes.none⟩ p r hr hok ht hg
 
-/-- C02 at full strength for the transformer with the nine mechanisms repaired (`Fixes.all`): no guard is left. -/
+/-- THE HEADLINE.  C02 at full strength for the transformer as it is now (all nine mechanisms repaired, `Fixes.all`):
+for every program, every set of builtins and every session, a statement all of whose reads are defined is never offered to
+command interpretation.  No guard is left. -/
 theorem C02_python_wins_repaired (B U : List Name) (p : Stmts) (r : Rec) (hr : r ∈ run ⟨B, U, Fixes.all⟩ p)
     (hok : r.ok = true) (ht : r.tame = true) : ∀ d ∈ r.decs, d.v ≠ Verdict.offer :=
   C02_python_wins_gen ⟨B, U, Fixes.all⟩ p r hr hok ht ((runL_gAll B U p (St.init _) rfl).1 r hr)
@@ -228,7 +232,8 @@ example : ([(pDotted, [], 1), (pWalrus, [7], 0), (pWalrusStmt, [], 1), (pLambda,
     (pDelBuiltin, [6, 7], 1), (pExcept, [7], 4)] : List (Stmts × List Name × Nat)).all
       (fun w => okAt (run ⟨B, w.2.1, Fixes.all⟩ w.1) w.2.2 && !offered (run ⟨B, w.2.1, Fixes.all⟩ w.1) w.2.2) = true := by decide
 
-/-- THE FULL STATEMENT IS FALSE for the code as it is — one witness per mechanism.
+/-- THE FULL STATEMENT WAS FALSE for the code before the repairs (`Fixes.none`) — one witness per mechanism, each the reason
+for one fix commit.
 `import os.path` records the string "os.path", not `os`: a following `os.sep` is offered to command interpretation. -/
 theorem C02_cex_dotted_import : okAt (run (code []) pDotted) 1 = true ∧ offered (run (code []) pDotted) 1 = true := by decide
 /-- a walrus below a BoolOp is never recorded: `if (n := z) > 10 and n < 20:` has its second operand offered -/
@@ -247,7 +252,7 @@ theorem C02_cex_del_builtin : okAt (run (code [6, 7]) pDelBuiltin) 1 = true ∧ 
 /-- an `except … as x` name is recorded when the `try` is entered: a `del x` in the body strikes it -/
 theorem C02_cex_except_name : okAt (run (code [7]) pExcept) 4 = true ∧ offered (run (code [7]) pExcept) 4 = true := by decide
 
-/-- "deleting the name returns later lines to command interpretation" is false for the code as it is when the name is recorded
+/-- "deleting the name returns later lines to command interpretation" was false before the repairs when the name is recorded
 twice: session variable x, `x = 2; del x; x -z` — the property sends the last line back to command interpretation
 (`delRead`), the code keeps it -/
 theorem C02_cex_del_session_record :
